@@ -168,6 +168,49 @@ theorem subset_ok {f : Font} {glyphs : List Gid} {o : Order} {sub : Sub}
           exact ⟨l, rfl, hl.1, by simp [assemble, rebuildGsub]⟩
       · rw [← h]; rfl
 
+/-- every run that is not rejected as an illegal oracle ends in a state holding exactly the reachable
+glyphs, and its outcome is decided by the range check on that state alone -/
+theorem subset_outcome {f : Font} {glyphs : List Gid} {o : Order}
+    (hnd : glyphs.Nodup) (hp : ∀ k x, (o.rules k x).Perm x)
+    (hne : ∀ e, subset f glyphs o ≠ .err e) :
+    ∃ s : St, (∀ g, g ∈ s.glyphs ↔ Reach f glyphs (fontRules f) g) ∧
+      subset f glyphs o =
+        if s.glyphs.any (fun g => decide (f.glyphs.length ≤ g)) then .panic "index out of range"
+        else .ok (assemble f s (rebuildGsub s f.gsub).2) := by
+  have h0 := init_inv hnd
+  cases hsc : closeAll f o.rules 0 o.pops (St.init glyphs) with
+  | none =>
+    exfalso
+    apply hne "order"
+    unfold subset; rw [hsc]
+  | some sc =>
+    have hq0 : ∀ g ∈ (St.init glyphs).glyphs, Reach f glyphs (fontRules f) g :=
+      fun g hg => Reach.base hg
+    have hs := closeAll_spec f glyphs o.rules hp o.pops 0 _ sc h0 hq0 hsc
+    have hreb : (rebuildGsub sc f.gsub).1 = sc := by
+      unfold rebuildGsub
+      cases hg : f.gsub with
+      | none => rfl
+      | some l =>
+        simp only
+        have hfr : fontRules f = rulesOf l := by unfold fontRules; rw [hg]
+        exact (subLookups_closed sc l.lookups (by
+          intro r hrm; apply hs.2.2.1 r; rw [hfr]; simpa [rulesOf] using hrm)).1
+    refine ⟨sc, ?_, ?_⟩
+    · intro g
+      constructor
+      · exact hs.2.2.2.2 g
+      · intro hr
+        induction hr with
+        | base hm => exact ext_mem hs.2.1 hm
+        | rule hrm _ ho ih =>
+          have := hs.2.2.1 _ hrm (fun i hi => (hs.1.has_iff i).2 (ih i hi)) _ ho
+          exact (hs.1.has_iff _).1 this
+        | comp hc _ hcm ih => exact hs.2.2.2.1 hc _ ih _ hcm
+    · unfold subset
+      rw [hsc]
+      simp only [hreb]
+
 theorem perm_of_same_mem {l1 l2 : List Gid} (h1 : l1.Nodup) (h2 : l2.Nodup)
     (h : ∀ g, g ∈ l1 ↔ g ∈ l2) : l1.Perm l2 :=
   (List.perm_ext_iff_of_nodup h1 h2).2 h
